@@ -9,23 +9,35 @@
 //                                                                {p a SPACE ' " ; !} + CR LF on a one-entry history
 #include "hist/hist.h"
 #include "c13_common.h"
+#include "probe.h"
 #include <deque>
+// members that only feed the state key / a state-conformance comparison go through probe.h (missing member -> default + @INFO)
+VF_PROBE(curr_input) VF_PROBE(cursor) VF_PROBE(history_index)
+template <class T> static auto path_names(T &s, int) -> decltype(s.path.size(), std::string()) { std::string t = "/"; for (size_t i = 0; i < s.path.size(); i++) t += (i ? "/" : "") + s.path[i].first; return t; }
+template <class T> static std::string path_names(T &, long) { vf_note_missing("path"); return "?"; }
 using namespace c13;
 
 struct Op { int c, glue; };   // glue=1: same segment as the previous command (no loop pass in between)
 static const char *CMD[] = {"p a", "p b c", "history", "exit", "!!", "!0", "!1", "!19", "!20", "!21", "!-1", "!-20", "!-21",
                             "!2147483647", "!-2147483648", "!99999999999", "!-99999999999", "!x",
                             "p a;!!;p b", "p a;!0;p b c", "!-1;p c",       // ';'-chains with a history reference that is not the last command
-                            "p a;p b c"};                                  // plain ';'-chain: two calls, stored verbatim (judged, nothing adopted)
-enum { NCMD = 22 };
+                            "p a;p b c",                                   // plain ';'-chain: two calls, stored verbatim (judged, nothing adopted)
+                            "p aaaaaaaaaaaaaaaaaaaaaaaa",                  // longer than the 15-byte small-string buffer: line, history entry and argv live on the heap
+                            "p aaaaaaaaaaaaaaaaaaaaaaaa;!!;p b",           // ... inside a chain whose history reference replaces the line being walked
+                            "p %s%n%s%s", "%n"};                           // '%' directives reach the logger (C13's log stub formats): must be data, never a format string
+enum { NCMD = 26 };
 // navigation lane. Tree (built in World): /p (func)  /d/ (dir)  /d/f (func)  /d/e/ (dir)  /d/e/g (func)  /d/e/up -> d (a directory
 // mounted below itself)  /d/e/top -> root  /d/x (func node deleted after mounting)  /z (dir node deleted after mounting)
 // /d/gone and /d/e/gone (mounted, then unmounted again)
 static const char *NAV[] = {"cd d", "cd ..", "cd /", "cd", "cd d/../..", "cd e/up", "cd d/e", "cd e/top", "cd z", "cd ./e/../e/g", "d", "e",
                             "ls", "ls d", "ls d/f", "ls z", "ls ..", "tree", "tree d", "tree /", "tree d/x", "tree f", "pwd", "help", "help d/f", "help z", "help nope",
-                            "d/f x", "/p a", "f y", "x", "e/top/p b", "g", "../p c", "nope", "gone q", "!!", "!0", "history"};
+                            "d/f x", "/p a", "f y", "x", "e/top/p b", "g", "../p c", "nope", "gone q", "!!", "!0", "history",
+                            // paths THROUGH a function / deleted node, command words and help paths that resolve to the root
+                            "p/x", "d/f/q y", "z/q", "ls d/x/y", "cd z/..", "/", ".", "..", "help /", "help ."};
 enum { NNAV = sizeof NAV / sizeof NAV[0] };
 static bool g_nav = false;
+static uint32_t g_opts = 0; static bool g_quiet = false, g_echo = false;   // C13_OPTS=echo|quiet: session options of this run
+static std::string prefill_line(int i) { return "p h" + std::to_string(i) + "-xxxxxxxxxxxxxxxx"; }   // > 15 bytes: heap strings in the history
 static const char *cmd_text(int c) { return g_nav ? NAV[c] : CMD[c]; }
 
 static Args split_sp(const std::string &l) { Args a; size_t p = 0; while (p < l.size()) { size_t q = l.find(' ', p); if (q == std::string::npos) q = l.size(); if (q > p) a.push_back(l.substr(p, q - p)); p = q + 1; } return a; }
@@ -71,7 +83,7 @@ struct CRef {
   // what running one plain command (no '!', no ';', not 'history') does
   void effects(const std::string &e, Expect &x) {
     Args t = split_sp(e); std::string shape;
-    if (!g_nav) { if (e == "exit") x.exit = true; else { x.has_call = true; x.call = t; } }
+    if (!g_nav) { if (e == "exit") x.exit = true; else if (t[0] == "p") { x.has_call = true; x.call = t; } else { x.error = true; shape = "unknown-command"; } }
     else if (t[0] == "cd") { RPath np = path; if (resolve(t.size() > 1 ? t[1] : "/", np) && kind_of(top_of(np)) == K_DIR) path = np; shape = "cd-command"; }
     else if (t[0] == "ls" || t[0] == "tree" || t[0] == "help") shape = t[0] + "-command";
     else if (t[0] == "pwd") { x.pwd = true; x.pwd_text = path_text(path); shape = "pwd-command"; }
@@ -130,7 +142,6 @@ static event::Loop *g_loop = nullptr;
 static Worker g_worker;
 static int g_L = 0;
 
-static bool loop_has_deferred() { auto cl = static_cast<event::CommonLoop *>(g_loop); return !cl->run_next_func_queue_.empty() || !cl->run_in_loop_func_queue_.empty(); }
 
 struct World {
   Terminal term; FakeConn c; SessionToken st; CRef ref; bool alive = true; std::string shape = "setup", viol;
@@ -147,7 +158,7 @@ struct World {
       term.mountNode(d, probe, "gone"); term.mountNode(e, d, "gone"); term.umountNode(d, "gone"); term.umountNode(e, "gone");   // unmounted again: the name must not resolve
       term.deleteNode(x); term.deleteNode(z);
     }
-    g_conn = &c; st = term.newSession(&c); term.onBegin(st);
+    g_conn = &c; st = term.newSession(&c); if (g_opts) term.setOptions(st, g_opts); term.onBegin(st);
   }
   // deliver one segment (complete command lines), check every line's answer, then let the loop run deferred work
   bool segment(const std::vector<std::string> &lines) {
@@ -165,7 +176,7 @@ struct World {
     if (alive) { if (!r) { viol = "live-session-rejected-input"; return false; } if (!check_answers(lines, exp)) return false; }
     else if (!g_calls.empty()) { viol = "command-executed-on-ended-session"; return false; }
     // the loop runs whatever was deferred (session teardown)
-    if (loop_has_deferred()) {
+    {
       try { pump(g_loop); } catch (const std::exception &e) { viol = shape + "-uncaught-exception-in-deferred-work what=" + e.what(); g_worker.poisoned = true; return false; }
     }
     if (alive && exits > 0) {
@@ -182,19 +193,25 @@ struct World {
         std::string a, b; for (auto &x : s->history) a += x + "|"; for (auto &x : ref.hist) b += x + "|";
         viol = "history-differs-from-the-most-recent-20-stored-lines after=" + shape + " impl=" + a + " ref=" + b; return false; }
       // navigation lane, state conformance: the directory the session is in (names entered from the root)
-      std::string ip = "/"; for (size_t i = 0; i < s->path.size(); i++) ip += (i ? "/" : "") + s->path[i].first;
-      if (ip != path_text(ref.path)) { viol = "current-directory-differs-from-reference after=" + shape + " impl=" + ip + " ref=" + path_text(ref.path); return false; }
+      std::string ip = path_names(*s, 0);
+      if (ip != "?" && ip != path_text(ref.path)) { viol = "current-directory-differs-from-reference after=" + shape + " impl=" + ip + " ref=" + path_text(ref.path); return false; }
     }
     return true;
   }
   bool check_answers(const std::vector<std::string> &lines, const std::vector<Expect> &exp) {
     // each Enter is answered by exactly one prompt: cut what came back at the prompts
     std::vector<std::string> piece; size_t p = 0, q;
+    if (g_quiet) {   // quiet mode: no prompt at all; one line per segment (menu), so the whole answer belongs to it
+      if (count_sub(c.out, "# ") != 0) { viol = "quiet-session-printed-a-prompt after=" + shape + " sent='" + esc(c.out.substr(0, 120)) + "'"; return false; }
+      if (lines.size() != 1) { viol = "harness-glued-lines-in-quiet-mode"; return false; }
+      piece.push_back(c.out); p = c.out.size();
+    } else
     while ((q = c.out.find("# ", p)) != std::string::npos) { piece.push_back(c.out.substr(p, q - p)); p = q + 2; }
     if (piece.size() != lines.size() || p != c.out.size()) { viol = "command-lines-" + std::to_string(lines.size()) + "-answered-by-" + std::to_string(piece.size()) + "-prompts after=" + shape + " sent='" + esc(c.out.substr(0, 120)) + "'"; return false; }
     size_t start = 0;
     for (size_t i = 0; i < lines.size(); i++) {
-      const Expect &x = exp[i]; const std::string &pc = piece[i]; size_t end = start + pc.size() + 2;
+      const Expect &x = exp[i]; size_t end = start + piece[i].size() + 2;
+      std::string pc = piece[i]; if (g_echo && pc.compare(0, lines[i].size() + 2, lines[i] + "\r\n") == 0) pc.erase(0, lines[i].size() + 2);   // echo of the typed line and of Enter
       std::vector<Args> calls; for (auto &cl : g_calls) if (cl.second >= start && cl.second < end) calls.push_back(cl.first);
       start = end;
       std::string what = " cmd='" + lines[i] + "' out='" + esc(pc.substr(0, 100)) + "'";
@@ -226,7 +243,7 @@ struct World {
 // replay one history on a fresh Terminal + session; returns canon, sets viol
 static std::string replay(const std::vector<Op> &h, std::string &viol) {
   World w; bool ok = true;
-  for (int i = 0; ok && i < g_L; i++) ok = w.segment({"p h" + std::to_string(i)});
+  for (int i = 0; ok && i < g_L; i++) ok = w.segment({prefill_line(i)});
   if (!ok) w.viol = "prefill:" + w.viol;
   for (size_t i = 0; ok && i < h.size();) {
     std::vector<std::string> lines; lines.push_back(cmd_text(h[i].c)); size_t j = i + 1;
@@ -235,19 +252,19 @@ static std::string replay(const std::vector<Op> &h, std::string &viol) {
   }
   viol = w.viol;
   // deferred work of a failed replay must not leak into the next one: let the loop run it while the Terminal is still alive
-  if (!ok && !g_worker.poisoned && loop_has_deferred()) { try { pump(g_loop); } catch (...) { g_worker.poisoned = true; } }
+  if (!ok && !g_worker.poisoned) { try { pump(g_loop); } catch (...) { g_worker.poisoned = true; } }
   std::string canon;
   if (!w.alive) canon = "ended";
   else if (w.term.impl_->sessions_.at(w.st) == nullptr) canon = "ended-after-violation";
-  else { SessionContext *s = w.term.impl_->sessions_.at(w.st); canon = s->curr_input + "|" + std::to_string(s->cursor) + "|" + std::to_string(s->history_index) + "|"; for (auto &x : s->history) canon += x + ","; canon += "|" + std::to_string(w.ref.hist.size());
-         canon += "|"; for (auto &x : s->path) canon += x.first + "/"; canon += "|" + path_text(w.ref.path); }
-  if (ok && loop_has_deferred()) pump(g_loop);   // nothing may stay queued into the next replay
+  else { SessionContext *s = w.term.impl_->sessions_.at(w.st); canon = VF_GET(curr_input, *s, std::string()) + "|" + std::to_string(VF_GET(cursor, *s, (size_t)0)) + "|" + std::to_string(VF_GET(history_index, *s, (size_t)0)) + "|"; for (auto &x : s->history) canon += x + ","; canon += "|" + std::to_string(w.ref.hist.size());
+         canon += "|" + path_names(*s, 0) + "|" + path_text(w.ref.path); }
+  if (ok) pump(g_loop);   // nothing may stay queued into the next replay
   return canon;
 }
 
 // the reference alone (no real code): what shape of command ends this history (used to name a crash)
 static std::string shape_of(const std::vector<Op> &h) {
-  CRef ref; for (int i = 0; i < g_L; i++) ref.exec("p h" + std::to_string(i));
+  CRef ref; for (int i = 0; i < g_L; i++) ref.exec(prefill_line(i));
   std::string shape = "setup";
   for (size_t i = 0; i < h.size();) {
     int exits = 0; size_t j = i;
@@ -260,7 +277,7 @@ static std::string shape_of(const std::vector<Op> &h) {
 }
 
 // ---- tokenizer lane (engine I): every short line over {p a SPACE ' " ; !} ------------------------------------------------
-static const char TOK_ALPHA[] = {'p', 'a', ' ', '\'', '"', ';', '!'};
+static const char TOK_ALPHA[] = {'p', 'a', ' ', '\'', '"', ';', '!', '/'};   // lines with ';', '!' or '/' are judged for crash / exception / hang / prompt only
 // Reference tokenizer, written to the conventions pinned by util/split_cmdline_test.cpp: words are separated by blanks; a word
 // that starts with a quote is the text up to the matching quote, without the quotes; inside a word that starts with another
 // character a quoted stretch belongs to the word, quotes included; a quote that is never closed is a parse error.
@@ -286,8 +303,8 @@ static bool ref_tokenize(const std::string &l, Args &args, bool &pinned) {
 }
 static std::string tok_shape(const std::string &line) {
   Args a; bool pinned; bool ok = ref_tokenize(line, a, pinned);
-  bool special = line.find_first_of(";!") != std::string::npos, quoted = line.find_first_of("'\"") != std::string::npos;
-  return std::string("tokenizer-") + (!ok ? "unclosed-quote" : quoted ? "quoted-words" : a.empty() ? "blank-line" : "plain-words") + (special ? "-in-chain-or-history-reference" : "");
+  bool special = line.find_first_of(";!/") != std::string::npos, quoted = line.find_first_of("'\"") != std::string::npos;
+  return std::string("tokenizer-") + (!ok ? "unclosed-quote" : quoted ? "quoted-words" : a.empty() ? "blank-line" : "plain-words") + (special ? (line.find('/') != std::string::npos && line.find_first_of(";!") == std::string::npos ? "-with-path" : "-in-chain-or-history-reference") : "");
 }
 static std::string show_args(const std::vector<Args> &calls) { std::string g; for (auto &cl : calls) { g += "["; for (auto &x : cl) g += "<" + esc(x) + ">"; g += "]"; } return g.empty() ? "<none>" : g; }
 // one line + CR LF on a fresh session whose history holds one entry; returns "" or "<signature> <details>"
@@ -296,13 +313,13 @@ static std::string tok_case(const std::string &line) {
   std::string shape = tok_shape(line);
   w.c.out.clear(); g_calls.clear();
   bool r = false;
-  try { r = w.term.onRecvString(w.st, line + "\r\n"); if (loop_has_deferred()) pump(g_loop); }
+  try { r = w.term.onRecvString(w.st, line + "\r\n"); pump(g_loop); }
   catch (const std::exception &e) { g_worker.poisoned = true; return shape + "-uncaught-exception what=" + e.what(); }
   if (!r) return "live-session-rejected-input";
   std::string what = " line='" + esc(line) + "' out='" + esc(w.c.out.substr(0, 100)) + "'";
   size_t prompts = count_sub(w.c.out, "# ");
-  if (prompts != 1 || w.c.out.size() < 2 || w.c.out.compare(w.c.out.size() - 2, 2, "# ") != 0) return shape + "-answered-by-" + std::to_string(prompts) + "-prompts" + what;
-  if (line.find_first_of(";!") != std::string::npos) return "";          // chains and history references: crash / exception / hang / prompt only
+  if (g_quiet ? prompts != 0 : (prompts != 1 || w.c.out.size() < 2 || w.c.out.compare(w.c.out.size() - 2, 2, "# ") != 0)) return shape + "-answered-by-" + std::to_string(prompts) + "-prompts" + what;
+  if (line.find_first_of(";!/") != std::string::npos) return "";         // chains, history references, paths: crash / exception / hang / prompt only
   Args want; bool pinned; bool ok = ref_tokenize(line, want, pinned);
   if (!pinned) return "";
   std::vector<Args> calls; for (auto &cl : g_calls) calls.push_back(cl.first);
@@ -354,6 +371,8 @@ static int tok_main(size_t maxlen, long shard, long nshards) {
 
 int main(int argc, char **argv) {
   signal(SIGPIPE, SIG_IGN);
+  std::string opts = getenv("C13_OPTS") ? getenv("C13_OPTS") : "";
+  g_echo = opts == "echo"; g_quiet = opts == "quiet"; g_opts = g_echo ? (uint32_t)TerminalInteract::kEnableEcho : g_quiet ? (uint32_t)TerminalInteract::kQuietMode : 0u;
   if (argc > 3 && std::string(argv[1]) == "--one" && std::string(argv[2]) == "tok") {   // detail pass: one line
     g_loop = event::Loop::New(); std::string v = tok_case(unhex(argv[3])); fprintf(stderr, "viol=%s\n", v.c_str()); return 0;
   }
@@ -372,8 +391,9 @@ int main(int argc, char **argv) {
     std::string v, c = replay(h, v); std::string r = c; r.push_back('\0'); r += v; return r; };
   hx::Explorer<Op> ex; ex.name = g_nav ? std::string("cmd:nav") : "cmd:hist" + std::to_string(g_L); ex.deadline_s = deadline(600);
   if (g_nav && argc > 4) { ex.part = atoi(argv[3]); ex.nparts = atoi(argv[4]); ex.name += ":part" + std::to_string(ex.part); }
+  if (!opts.empty()) ex.name += ":" + opts;
   ex.show = [](const Op &o) { return std::string(o.glue ? "+" : "") + "'" + cmd_text(o.c) + "'"; };
-  ex.menu = [&](const std::vector<Op> &h) { std::vector<Op> m; for (int g = 0; g < ((h.empty() || g_nav) ? 1 : 2); g++) for (int c = 0; c < (g_nav ? (int)NNAV : (int)NCMD); c++) m.push_back({c, g}); return m; };
+  ex.menu = [&](const std::vector<Op> &h) { std::vector<Op> m; for (int g = 0; g < ((h.empty() || g_nav || g_quiet) ? 1 : 2); g++) for (int c = 0; c < (g_nav ? (int)NNAV : (int)NCMD); c++) m.push_back({c, g}); return m; };
   ex.run = [&](const std::vector<Op> &h, std::string &viol) {
     std::string job; for (auto &o : h) { job.push_back((char)o.c); job.push_back((char)o.glue); }
     std::string res, crash;
